@@ -341,6 +341,65 @@ theorem resolve_ok_of_wf (env : Env) (hl : env.loader = none) (fuel : Nat) (hfue
   | panic => exact absurd hr h2
   | fuel => exact absurd hr h3
 
+
+/-! ### conversely: a successful Schema.Resolve was given a well-formed document -/
+
+theorem resolveDocStep_wf (env : Env) (recDoc : ResolveDoc) (root : NodeId) (baseURI : Url) (inherit : Draft)
+    (s s' : RState) (h : resolveDocStep env recDoc root baseURI inherit s = .ok s') :
+    baseURI.fragment = "" ∧ structureOk env.st root = true ∧ localOk env root = true := by
+  unfold resolveDocStep at h
+  split at h
+  · simp at h
+  rename_i hfr
+  split at h
+  · simp at h
+  simp only at h
+  rw [bind_eq_ok] at h
+  obtain ⟨fresh, hfresh, h⟩ := h
+  split at h
+  · simp at h
+  rename_i hloc
+  refine ⟨by simpa using hfr, by unfold structureOk; rw [hfresh]; rfl, ?_⟩
+  unfold localOk
+  rw [docNodes_of_ok env.st root fresh hfresh, List.all_eq_true]
+  intro x hx
+  simp only [Bool.not_eq_true', Bool.not_eq_false] at hloc
+  rw [List.all_eq_true] at hloc
+  have := hloc x hx
+  cases hg : env.st.get? x with
+  | none => rw [hg] at this; simp at this
+  | some nd => rw [hg] at this; exact this
+
+/-- whatever the Loader: after a successful Schema.Resolve the BaseURI option parsed and has no fragment,
+    checkStructure and checkLocal accepted the document, and its `$id`s are well-formed -/
+theorem resolve_wf_of_ok (env : Env) (fuel : Nat) (root : NodeId) (base : String) (rs : Resolved)
+    (h : resolve env fuel root base = .ok rs) :
+    ∃ b, retrievalOf base = .ok b ∧ b.fragment = "" ∧ structureOk env.st root = true ∧
+      localOk env root = true ∧ (topDoc env root).IdsOk b := by
+  obtain ⟨s, b, d, hb, hs, _, _, _, _, _⟩ := resolve_ok' env fuel root base rs h
+  cases fuel with
+  | zero => simp [resolveDoc] at hs
+  | succ fuel =>
+    have hs' : resolveDocStep env (resolveDoc env fuel) root b .d2020 {} = .ok s := hs
+    obtain ⟨h1, h2, h3⟩ := resolveDocStep_wf env _ root b .d2020 {} s hs'
+    obtain ⟨rn, fresh, sB, hrn, hfresh, hB, _⟩ := resolveDocStep_unfold env _ root b .d2020 {} s hs'
+    refine ⟨b, hb, h1, h2, h3, ?_⟩
+    have hdr : docDraft env rn .d2020 = topDraft env root := (topDraft_eq env root rn hrn).symm
+    rw [hdr] at hB
+    have huniq : UniqueLineage (topDoc env root) :=
+      tree_uniqueLineage (topDoc env root) _ (checkStructure_tree env.st _ root fresh hfresh)
+    have hrootmem := checkStructure_root_mem env.st _ root fresh hfresh
+    refine resolveURIs_ids env (topDoc env root) rfl b huniq _ _ sB ?_ hB
+    obtain ⟨⟨r', info⟩, hm, he⟩ := List.mem_map.mp hrootmem
+    simp only at he
+    have hsome : (lookupNat r' (({} : RState).infos ++ fresh)).isSome = true :=
+      lookupNat_isSome_of_mem r' info _ (List.mem_append_right _ hm)
+    show ∃ i, lookupNat root (RState.updInfo _ root _).infos = some i ∧ i.uri = some b
+    rw [← he, updInfo_infos_lookup, if_pos rfl, setDoc_infos]
+    cases h0 : lookupNat r' (({} : RState).infos ++ fresh) with
+    | none => rw [h0] at hsome; simp at hsome
+    | some i0 => exact ⟨_, rfl, rfl⟩
+
 end RComp
 end Go
 end JSV
